@@ -381,6 +381,10 @@ class Program(object):
                 if owner is not None:
                     return f(e, owner.module, owner)
             r = self.resolve_name(module, expr.id)
+            if r is None:
+                v = self._fold_external('builtins.%s' % expr.id)
+                if not isinstance(v, External):
+                    return v
             return self._fold_ref(r, expr)
         if isinstance(expr, ast.Attribute):
             base = None
